@@ -1496,8 +1496,8 @@ def _spaces(tier, seed=0):
         n = g[0] * g[1] * g[2]
         sp.append(_sp("rep %dx%dx%d: coarsegrain_system / coarsegrain_grid / grid_to_graph / uncoarsegrain_trajectory(_data) "
                       "called 3 times on the SAME objects, valid maps among {-1..%d}^%d x environment maps %s x units "
-                      "configurations %s" % (g + (mx, n, "/".join(envs), "{0, 2}" if T else "{0}")), "rep", g,
-                      _labels(mx), envs=envs, units=(0, 2) if T else (0,)))
+                      "configurations %s" % (g + (mx, n, "/".join(envs), "{0, 2}" if (T and n <= 4) else "{0}")), "rep", g,
+                      _labels(mx), envs=envs, units=(0, 2) if (T and n <= 4) else (0,)))
     return sp
 
 
